@@ -14,7 +14,6 @@ def dump(repo):
         rows.append('(%d, "%s")' % (code, cls.__name__))
     coin = bitcoin.core.COIN
     assert isinstance(coin, int) and coin > 0
-    assert R.COIN == coin, 'bitcoin.rpc must use bitcoin.core.COIN'
     return ('-- GENERATED from the working tree by harness/tables/rpc.py on every run; do not edit.\n'
             'namespace BtcVerif.Generated\n\n'
             'def rpcBaseClass : String := "%s"\n\n'
